@@ -79,6 +79,8 @@ def run_cfg(ctx, p, cfg):
                 for b, i, s in g.assigns():
                     rv = s["rv"]
                     if rv["k"] == "bin" and rv["op"] in ("Add", "Mul", "AddWithOverflow", "MulWithOverflow", "AddUnchecked", "MulUnchecked", "Shl"):
+                        if rv["op"].startswith("Add") and panics.bounded_counter(g, b, [rv["a"], rv["b"]]):
+                            continue   # a digit counter (one increment per consumed character), not the width being accumulated
                         if rv.get("ty") in ("usize", "u64", "u32", "u128", "i64", "isize"):
                             bad.append("%s %s @%s" % (rv["op"], rv.get("ty"), s.get("at")))
                 for c in g.calls():
